@@ -7,6 +7,8 @@
 (*     psi' = ApplyRef(G, dims, sites, psi, op, which)                     *)
 (*     outer' = outer,  sitetags' = sitetags                               *)
 (* The route (entry point + mode) does not occur on the right-hand side.   *)
+(* (Written as two steps, Choose then Apply..., only so that TLC evaluates *)
+(* the exact arithmetic once per gate instead of once per route.)          *)
 (*                                                                         *)
 (* Implementation shaped (I): the dispatch table Accepts (C06_Defs) says   *)
 (* which routes a geometry class takes for a gate of a given arity, and    *)
@@ -127,12 +129,15 @@ ImplAutoSwap(G, dims, sites, v, op) ==
   IN  s3.v
 
 \* MatrixProductOperator.from_dense(G, dims, sites=where) builds the MPO in sorted site order; the MPS then
-\* contracts the lower legs of the MPO (the upper legs if transpose)
+\* contracts the lower legs of the MPO (the upper legs if transpose).  gate_TN_1D spells the adjoint as
+\* "conjugate the array and flip transpose" (fix 0665402c; before it the 'nonlocal' branch dropped dagger)
 ImplSubMpo(G, dims, sites, v, op) ==
   LET gd == SubDims(dims, sites)
       sp == SortPerm(sites)
-      Gs == IF Bug = "nosort" THEN G ELSE PermuteGate(G, gd, sp)
-      M  == IF op = "T" THEN Transpose(Gs) ELSE Gs
+      Ga == IF op = "H" /\ Bug # "nonlocal-drops-dagger" THEN ConjMat(G) ELSE G
+      tr == (op = "T") \/ (op = "H" /\ Bug # "nonlocal-drops-dagger")
+      Gs == IF Bug = "nosort" THEN Ga ELSE PermuteGate(Ga, gd, sp)
+      M  == IF tr THEN Transpose(Gs) ELSE Gs
   IN  ApplyLocal(M, dims, Compose(sites, sp), v)
 
 \* tensor_network_gate_sandwich_inds: Gu, Gl = (conj G, G) if dagger else (G, conj G), both wired transposed
